@@ -34,7 +34,7 @@ import json,sys
 D,pid,meta,passed=sys.argv[1:]
 try: a=json.load(open(meta))
 except Exception: a={}
-m={"property":pid,"round":3,"breaks":a.get("summary",""),"needs":a.get("failing_input",""),
+m={"property":pid,"round":int(__import__("os").environ.get("ROUND","3")),"breaks":a.get("summary",""),"needs":a.get("failing_input",""),
    "confirmed":{"how":"tools/confirm_seeds3.sh in a scratch worktree of /repo HEAD: git apply patch.diff; cargo test --workspace --no-fail-fast --offline (108 passed); cargo build --features verif; demo/demo.sh <binary> output differs between the changed and the original binary",
                 "tests_passed_with_patch":int(passed),"demo_differs":True,"builds_with_feature_verif":True},
    "detected_by":[]}
